@@ -132,6 +132,16 @@ def stepwise(r, w, mode):
                     n += 1
                 if n == 0:
                     wr([])
+            elif mode in ("nparray", "nparray-split"):
+                # the batch handed to a stream step is a one-dimensional numpy array - what a numpy user has at hand - whose dtype is the widest of its
+                # kind (float64, int64 / uint64, complex128), i.e. usually not the dtype of the element on the wire; the values are the same numbers
+                items = list(v)
+                if mode == "nparray" or len(items) < 2:
+                    wr(widened(items))
+                else:
+                    h = len(items) // 2
+                    wr(widened(items[:h]))
+                    wr(items[h:])
             elif mode == "pairs":
                 buf = []
                 n = 0
@@ -147,6 +157,20 @@ def stepwise(r, w, mode):
                 raise ValueError("unknown mode " + mode)
         else:
             wr(v)
+
+
+def widened(items):
+    import numpy as np
+    if not items:
+        return items
+    if all(isinstance(x, (bool, np.bool_)) for x in items):
+        return np.array(items, dtype=np.bool_)
+    # (integers stay a list: the integer serializers refuse numpy integers of another width with a ValueError - a reported error, their business)
+    if all(isinstance(x, (float, np.floating)) for x in items):
+        return np.array([float(x) for x in items], dtype=np.float64)
+    if all(isinstance(x, (complex, np.complexfloating)) for x in items):
+        return np.array([complex(x) for x in items], dtype=np.complex128)
+    return items
 
 
 def reusing(items):
